@@ -147,7 +147,11 @@ ValOK(enc, e) == IF enc = "tick" THEN TickOK(e) ELSE e.v = e.p
 ValidContent(c) ==
     CASE c.kind = "text"   -> Len(c.f.msg) <= MaxText
       [] c.kind = "oracle" -> c.f.rid > 0 /\ c.f.found
-      [] c.kind = "feeds"  -> Len(c.f.ps) \in 1..MaxSigs /\ \A i \in 1..Len(c.f.ps) : Len(c.f.ps[i].sig) <= 32
+      [] c.kind = "feeds"  -> /\ Len(c.f.ps) \in 1..MaxSigs
+                              /\ \A i \in 1..Len(c.f.ps) : /\ Len(c.f.ps[i].sig) <= 32
+                                                            \* ids are left-padded with zero bytes to 32 bytes: an empty id or a
+                                                            \* leading zero byte would be signed under another id's name
+                                                            /\ Len(c.f.ps[i].sig) >= 1 /\ c.f.ps[i].sig[1] # 0
       [] c.kind = "tunnel" -> \A i \in 1..Len(c.f.ps) : Len(c.f.ps[i].sig) <= 32
       [] OTHER -> TRUE
 
